@@ -76,7 +76,11 @@ MANIFEST = {
             "no structural effect (Folder.scan / repair / corrupt / reveal_to_red, _scan_timestep, _reveal_to_red_timestep, "
             "pre_timestep of Folder and File, File.apply_timestep / reveal_to_red, FileSystem.scan / reveal_to_red) are CHECKED to be "
             "structurally inert by the extractor (only whitelisted non-structural attributes written, only whitelisted callees). "
-            "Still textual: the `_file_action` closure (dispatch into a file's own request manager) and the request trees.",
+            "The routes of FileSystem._init_request_manager are GENERATED from its add_request calls (validator attributes resolved to the "
+            "translated validators, lambdas / closures to the translated methods / handlers) and the model's step for delete / restore / "
+            "create / access / pre_timestep / apply_timestep is proved to BE that composition (C15_gen_step_from_translated). "
+            "Still textual: the `_file_action` closure (dispatch into a file's own request manager), Folder._init_request_manager and the "
+            "nesting of the sub-managers (request-tree tables).",
     "note": "C15-specific: health status, red-scan timers, sizes and file types are not modelled (no influence on structure "
             "or response status); no request "
             "path raises (after repair F-C05-2 a handler that lacks an option is answered `failure`: C15_no_request_raises, "
